@@ -1,8 +1,8 @@
 (* C08 obligations over the regenerated constants (bit values of the AuthType* names as the Go
    compiler computes them now; the lifetime of the admin cache that loadVerifyConfigFile built) *)
-From Coq Require Import ZArith NArith Lia List.
+From Coq Require Import ZArith NArith Lia List String.
 From KM Require Import Model.Auth Model.Authz Model.AdminCache Proofs.AdminCache Props.C08.
-From KMW Require Import gen.Consts gen.ConstsC08.
+From KMW Require Import gen.Consts gen.ConstsC08 gen.Tables.
 Import ListNotations.
 
 (* the masks the model tests are the ones the code tests *)
@@ -42,3 +42,21 @@ Proof.
   intros o' Hi Hu Ht. apply Hall; assumption.
 Qed.
 Goal True. idtac "@@OBL c08_reevaluated_every_5min". Abort.
+
+(* no profile-store call with a user name taken from the request outside the handlers that
+   Model/Authz.v models behind their authorization test (regenerated call-site table).  Rows of
+   class "parameter" are helpers; their own call sites are rows of the same table.  loginHandler
+   verifies the password of the user it names before it reads that user's profile (C01/C05). *)
+Definition gated_handlers : list string :=
+  ["profileHandler"; "u2fTokenManagerHandler"; "totpTokenManagerHandler"; "u2fRegisterRequest";
+   "u2fRegisterResponse"; "webauthnBeginRegistration"; "webauthnFinishRegistration";
+   "usersHandler"; "addUserHandler"; "deleteUserHandler"; "generateBootstrapOTP"]%string.
+Definition self_authenticating : list string := ["loginHandler"]%string.
+Definition site_ok (r : string * string * string * string) : bool :=
+  let '(f, callee, class, arg) := r in
+  if String.eqb class "authenticated" then true
+  else if String.eqb class "parameter" then true
+  else existsb (String.eqb f) (gated_handlers ++ self_authenticating).
+Lemma c08_store_sites : forallb site_ok profile_store_sites = true.
+Proof. vm_compute. reflexivity. Qed.
+Goal True. idtac "@@OBL c08_store_sites". Abort.
